@@ -43,6 +43,20 @@ POSITIONS = {'props': '(props: A0) => () => null', 'prop-type': '(props: {{ p: A
              'emit-key': "(props: {{ a: string }}, ctx: SetupContext<(e: A0) => void>) => () => null"}
 
 
+# event names / prop names declared more than once (overloads, repeated union members, intersections): whatever de-duplicates them
+# must not let a hash order reach the output
+EMITS_DECLS = """interface Em0 {{ (e: 'change', v: string): void; (e: 'change', v: number): void; (e: 'input' | 'focus' | 'blur'): void; (e: 'submit', p: object): void; (e: 'reset'): void; (e: 'close'): void }}
+type Ev0 = 'a' | 'b' | 'c' | 'a' | 'd' | 'e';
+interface Pa0 {{ a: string; b: number; c: boolean }}
+interface Pb0 {{ c: string; d: number; a: number; e: Date; f: symbol }}
+"""
+EMITS_DUP = {
+    'overloads': ('{{ id: string }}', 'Em0'), 'union-repeat': ('{{ id: string }}', '(e: Ev0) => void'), 'two-fn-same': ('{{ id: string }}', "((e: 'x' | 'y' | 'z' | 'w') => void) | ((e: 'y' | 'x' | 'q') => void)"),
+    'props-intersection': ('Pa0 & Pb0', "{{ (e: 'k'): void }}"), 'props-merged-dup': ('Pa0 & Pb0 & {{ a: bigint; g: string; h: number }}', 'Em0'),
+    'property-syntax-dup': ('{{ id: string }}', "{{ a: []; b: [] }} & {{ b: [v: number]; c: []; a: []; d: []; e: [] }}"),
+}
+
+
 def make_skeleton(spec):
     leaves = []
     if spec['kind'] == 'value':
@@ -55,6 +69,10 @@ def make_skeleton(spec):
         src = "import {{ defineComponent, type SetupContext }} from 'vue';\n" + EDGE_DECLS + \
               'export default defineComponent((props: {{ %s }}, ctx: SetupContext<%s>) => () => null);\n' % ('; '.join('p%d: %s' % (i, t) for i, t in enumerate(ts)), spec.get('emits', '{{}}'))
         return Skeleton('c08#edge|%s|%s' % ('|'.join(ts)[:60], spec.get('emits', '')[:20]), src, leaves, {'resolve_type': True}, tsx=True, meta={'family': 'c08/edge'})
+    if spec['kind'] == 'emits':
+        src = "import {{ defineComponent, type SetupContext }} from 'vue';\n" + EMITS_DECLS + \
+              'export default defineComponent((props: %s, ctx: SetupContext<%s>) => () => null);\n' % (EMITS_DUP[spec['emits']][0], EMITS_DUP[spec['emits']][1])
+        return Skeleton('c08#emits|%s' % spec['emits'], src, leaves, {'resolve_type': True}, tsx=True, meta={'family': 'c08/emits'})
     if spec['kind'] == 'graph':
         decls = TYPE_GRAPHS[spec['graph']]
         src = "import {{ defineComponent, type SetupContext }} from 'vue';\n" + decls + 'export default defineComponent(%s);\n' % POSITIONS[spec['pos']]
@@ -85,6 +103,9 @@ def extra_constraints(skel):
     return cs
 
 
+NONDET = 'no iteration over a randomly seeded hash container reaches the output (repeating the run yields the same bytes)'
+
+
 def oracle(env):
     """reaching the oracle means the run returned without panic within the step / depth budget"""
     ctx = env.ctx
@@ -95,6 +116,16 @@ def oracle(env):
         d = env.extra.get('diags_all')
         if d:
             obs.append(Obligation('repeating the run yields the same diagnostics', [str(x) for x in d[0]] == [str(x) for x in d[1]]))
+    if isinstance(ctx, harness.ConcreteCtx):
+        # native side of the determinism clause: the same request is served eight more times (every std HashMap/HashSet instance
+        # draws a fresh RandomState, also within one process) and the printed bytes are compared
+        rerun = env.extra.get('rerun')
+        if rerun is not None:
+            codes = {env.extra.get('code')} | {rerun() for _ in range(8)}
+            obs.append(Obligation(NONDET, len(codes) == 1, {'distinct_outputs': len(codes), 'outputs': sorted(str(c) for c in codes)[:3]}))
+    else:
+        nd = getattr(ctx, 'nondet_iterations', [])
+        obs.append(Obligation(NONDET, not nd, {'sites': list(nd)[:4]}))
     return obs
 
 
@@ -124,6 +155,8 @@ def jobs(tier):
         out.append({'kind': 'edge', 'types': [t]})
         out.append({'kind': 'edge', 'types': ['string'], 'emits': t})
         out.append({'kind': 'edge', 'types': ['string'], 'emits': '(e: %s) => void' % t})
+    for e in EMITS_DUP:
+        out.append({'kind': 'emits', 'emits': e})
     for g in TYPE_GRAPHS:
         for p in POSITIONS:
             out.append({'kind': 'graph', 'graph': g, 'pos': p})
